@@ -815,6 +815,7 @@ func allocOnStack(st *State, fr *Frame, name string) *ssa.Alloc {
 }
 
 func (v *Verifier) havocNamed(st *State, fr *Frame, name string) {
+	name = v.renamedTarget(st, fr, name)
 	if a := allocOnStack(st, fr, name); a != nil {
 		cell := sortOf(elemType(a.Type()))
 		ref := v.val(st, a)
@@ -854,6 +855,24 @@ func (v *Verifier) havocNamed(st *State, fr *Frame, name string) {
 		v.havocked[nh] = true
 	}
 	st.setHeap(cell, nh)
+}
+
+// renamedTarget: a modifies target naming a local variable that the function (or an inlined callee on the stack)
+// now declares under another name (names.go).
+func (v *Verifier) renamedTarget(st *State, fr *Frame, name string) string {
+	if name == "" || strings.ContainsAny(name, ".[]*") {
+		return name
+	}
+	fns := []*ssa.Function{fr.fn}
+	for i := len(st.frames) - 1; i >= 1; i-- {
+		fns = append(fns, st.frames[i].fn)
+	}
+	for _, fn := range fns {
+		if nn := renamesOf(v.P, fn)[name]; nn != "" {
+			return nn
+		}
+	}
+	return name
 }
 
 // goneLocal: a modifies target written like a local variable (a plain lower-case identifier) that is neither a
@@ -995,6 +1014,7 @@ func (v *Verifier) frameCheck(st *State, base map[string]*Term, fresh []*Term, l
 	allow := map[string]bool{}
 	cells := map[string][]*Term{}
 	for _, a := range allowed {
+		a = v.renamedTarget(st, fr, a)
 		if al := allocOnStack(st, fr, a); al != nil {
 			cell := sortOf(elemType(al.Type()))
 			cells[heapName(cell)] = append(cells[heapName(cell)], v.val(st, al))
